@@ -188,6 +188,8 @@ def regen_for(module):
                     import gen_lex; gen_lex.newline_actions()
                 elif g == 'Gen_Builtins':
                     import gen_builtins; gen_builtins.write()
+                elif g == 'Gen_Rules':
+                    import gen_rules; gen_rules.write()
         except Exception as e:           # a translator that cannot read the source any more: the tie is broken, not the run
             errs.append((g, '%s: %s' % (type(e).__name__, e)))
     return errs
